@@ -48,6 +48,14 @@ func c18World(pns []c18PN, prevZone string, eniConfig bool) client.Client {
 			pn.Spec.Selector.PodSelector = &metav1.LabelSelector{MatchLabels: map[string]string{"app": "x"}}
 		case "ns":
 			pn.Spec.Selector.NamespaceSelector = &metav1.LabelSelector{MatchLabels: map[string]string{"team": "a"}}
+		case "both":
+			pn.Spec.Selector.PodSelector = &metav1.LabelSelector{MatchLabels: map[string]string{"app": "x"}}
+			pn.Spec.Selector.NamespaceSelector = &metav1.LabelSelector{MatchLabels: map[string]string{"team": "a"}}
+		case "both-other-ns":
+			pn.Spec.Selector.PodSelector = &metav1.LabelSelector{MatchLabels: map[string]string{"app": "x"}}
+			pn.Spec.Selector.NamespaceSelector = &metav1.LabelSelector{MatchLabels: map[string]string{"team": "b"}}
+		case "other-ns":
+			pn.Spec.Selector.NamespaceSelector = &metav1.LabelSelector{MatchLabels: map[string]string{"team": "b"}}
 		}
 		if p.ready {
 			pn.Status.Status = v1beta1.NetworkingStatusReady
@@ -64,6 +72,18 @@ func c18World(pns []c18PN, prevZone string, eniConfig bool) client.Client {
 		objs = append(objs, &corev1.ConfigMap{ObjectMeta: metav1.ObjectMeta{Namespace: "kube-system", Name: "eni-config"}, Data: map[string]string{"eni_conf": `{"vswitches":{"z1":["vsw-default"]},"security_groups":["sg-default"]}`}})
 	}
 	return fake.NewClientBuilder().WithScheme(types.Scheme).WithObjects(objs...).Build()
+}
+
+var c18CurPNs []c18PN
+
+func c18Sels() []string {
+	var out []string
+	for _, p := range c18CurPNs {
+		if p.sel != "" {
+			out = append(out, p.name+":"+p.sel)
+		}
+	}
+	return out
 }
 
 func c18SGs(n int) string {
@@ -91,9 +111,12 @@ func c18Net(ifn, vsw, sgs, alloc string) string {
 func TestVerifC18(t *testing.T) {
 	r := ev.New("C18", "admission")
 	defer r.Flush()
-	r.Rule("real podWebhook on a fake API server: pods over {hostNetwork, ignored label, containers 0/1/2, owner none/StatefulSet/ReplicaSet/DaemonSet, pod-networks annotation in 14 shapes (complete, second interface incomplete, first incomplete, duplicate / empty / 5- and 6-char interface names, 10 / 11 security groups, fixed allocation, invalid JSON), pod-networks-request in 6 shapes (1-3 networks with overlapping / disjoint zones, not ready, with selector, unknown), pod-networking annotation, pod-eni flag, labels} x PodNetworking sets x previous PodENI zone x cluster config {trunk, IPAM type, resource injection, eni-config present}; the JSON patch is APPLIED to the input pod and parsed back; oracle = reference predicate of the statement (untouched classes unchanged; conflicts / fixed-IP-without-stable-name denied; every patched pod complete: pod-eni flag, parseable list, unique 1-5 char names, vSwitches, <=10 security groups, allocation type, device request == number of networks, zone affinity within the zones common to all requested networks)")
+	r.Rule("real podWebhook on a fake API server: pods over {hostNetwork, ignored label, containers 0/1/2, owner none/StatefulSet/ReplicaSet/DaemonSet, pod-networks annotation in 14 shapes (complete, second interface incomplete, first incomplete, duplicate / empty / 5- and 6-char interface names, 10 / 11 security groups, fixed allocation, invalid JSON), pod-networks-request in 6 shapes (1-3 networks with overlapping / disjoint zones, not ready, with selector, unknown), pod-networking annotation, pod-eni flag, labels} x PodNetworking sets (incl. definitions whose selector names pod AND namespace labels, matching or not) x previous PodENI zone x cluster config {trunk, IPAM type, resource injection, eni-config present}; the JSON patch is APPLIED to the input pod and parsed back; oracle = reference predicate of the statement (untouched classes unchanged; conflicts / fixed-IP-without-stable-name denied; every patched pod complete: pod-eni flag, parseable list, unique 1-5 char names, vSwitches, <=10 security groups, allocation type, device request == number of networks, zone affinity within the zones common to all requested networks)")
 	pnsAll := []c18PN{{"pa", true, []string{"z1", "z2"}, "", false}, {"pb", true, []string{"z2", "z3"}, "", false}, {"pc", true, []string{"z4"}, "", false}, {"pnr", false, []string{"z1"}, "", false}, {"psel", true, []string{"z1"}, "pod", false}, {"pfix", true, []string{"z1"}, "ns", true}}
-	pnSets := [][]c18PN{nil, pnsAll[:4], pnsAll}
+	pnSets := [][]c18PN{nil, pnsAll[:4], pnsAll,
+		// selectors that name BOTH pod and namespace labels / another namespace: a pod is selected only if every given selector matches
+		append(append([]c18PN{}, pnsAll[:4]...), c18PN{"pboth", true, []string{"z1"}, "both-other-ns", false}, c18PN{"pons", true, []string{"z1"}, "other-ns", false}),
+		append(append([]c18PN{}, pnsAll[:4]...), c18PN{"pboth", true, []string{"z1"}, "both", false})}
 	full := c18Net("eth0", `["vsw-1"]`, `["sg-1"]`, "")
 	netAnnos := []string{"",
 		`{"podNetworks":[` + full + `]}`,
@@ -122,6 +145,7 @@ func TestVerifC18(t *testing.T) {
 		for _, p := range pns {
 			zonesOf[p.name] = p.zones
 		}
+		c18CurPNs = pns
 		for _, prevZone := range []string{"", "z9"} {
 			for _, eniCfg := range []bool{true, false} {
 				cl := c18World(pns, prevZone, eniCfg)
@@ -216,6 +240,30 @@ func c18One(r *ev.Rec, cl client.Client, cfg *controlplane.Config, zonesOf map[s
 	case nconf >= 2:
 		if resp.Allowed {
 			r.Violate("webhook/conflicting-annotations-admitted", fmt.Sprintf("%v: allowed with %d patches", in, len(resp.Patches)), in)
+		}
+	}
+	// reference selection: a ready definition selects the pod iff every selector it gives matches (pod labels app=x only
+	// in the labelled variant; the namespace carries team=a)
+	selected := false
+	for _, pn := range c18CurPNs {
+		if !pn.ready {
+			continue
+		}
+		podOK, nsOK := variant == "labelled", true
+		switch pn.sel {
+		case "pod":
+			selected = selected || podOK
+		case "ns":
+			selected = selected || nsOK
+		case "both":
+			selected = selected || (podOK && nsOK)
+		case "both-other-ns", "other-ns":
+			// the namespace selector asks for team=b: never matches
+		}
+	}
+	if !untouched && nconf == 0 && cfg.IPAMType != "crd" && variant != "podeni" && !selected {
+		if !resp.Allowed || patched {
+			r.Violate("webhook/unselected-pod-touched", fmt.Sprintf("%v: no ready network definition selects this pod (selectors %v), yet allowed=%v patches=%d", in, c18Sels(), resp.Allowed, len(resp.Patches)), in)
 		}
 	}
 	if !untouched && nconf == 0 && cfg.IPAMType != "crd" && variant != "podeni" && variant != "labelled" && len(zonesOf) <= 4 {
